@@ -220,7 +220,12 @@ func (ex *Exec) InvParts(db *SymDB, now *Term) []namedTerm {
 // emptyMapEnc: the column holds the encoding of the empty map.
 func (ex *Exec) emptyMapEnc(s *Term) *Term {
 	tt := ex.tt
-	return tt.Eq(decMapHas(tt, s), tt.ConstArr(SArrSB, tt.Bool(false)))
+	return liftIte(tt, s, func(s *Term) *Term {
+		if s.op == "uf:jenc_map" {
+			return tt.Eq(s.args[0], tt.ConstArr(SArrSB, tt.Bool(false)))
+		}
+		return tt.Eq(s, ex.encMap(nil))
+	})
 }
 
 func sameCols(tt *TermTable, t *Table, a, b *Row, cols ...string) *Term {
